@@ -88,7 +88,7 @@ func TestC08Growth(t *testing.T) {
 	if evid.Register(t, "growth", growthOracle) {
 		return
 	}
-	sizes := []int{25, 100}
+	sizes := []int{20, 60}
 	if evid.R.Thorough() {
 		sizes = []int{25, 100, 400, 1000}
 	}
